@@ -69,6 +69,25 @@ def sweep(ctx, n):
                 if not eq(np.asarray(val)):
                     bad(f"interface:{cls}:{name}", f"{name} differs from get{X}(src, obs)", {"class": cls, "field": X, "form": name,
                         "max_abs_diff": float(np.max(np.abs(np.asarray(val) - ref))) if np.shape(val) == np.shape(ref) else "shape"})
+            # a sensor with a moving / rotating / mirrored-orientation path vs one static sensor per path step
+            if i % 2 == 0:
+                mlen = rng.choice([2, 3, 4])
+                a = nps.uniform(0.2, 1.2)
+                ax = np.eye(3)[rng.randrange(3)]
+                kind = rng.choice(["mirrored", "rotating", "translating"])
+                oris = R.from_rotvec([ax * a * (-1) ** j for j in range(mlen)]) if kind == "mirrored" else (
+                    R.random(mlen, rng=nps) if kind == "rotating" else R.from_quat(np.tile(R.random(rng=nps).as_quat(), (mlen, 1))))
+                ppos = far_points(nps, mlen, lo=5, hi=8)
+                pix = nps.uniform(-0.3, 0.3, (2, 3))
+                moving = magpy.Sensor(position=ppos, orientation=oris, pixel=pix)
+                full = get(src, moving, squeeze=False)[0, :, 0]
+                forms[f"sensor-path:{kind}"] = forms.get(f"sensor-path:{kind}", 0) + 1
+                for j in range(mlen):
+                    static = magpy.Sensor(position=ppos[j], orientation=oris[j], pixel=pix)
+                    step = get(src, static, squeeze=False)[0, 0, 0]
+                    if not np.allclose(full[j], step, rtol=1e-9, atol=1e-9 * sc):
+                        bad(f"interface:{cls}:sensor-path:{kind}", f"sensor with a {kind} path differs at step {j} from a static sensor at that pose", {"class": cls, "field": X, "kind": kind})
+                        break
             # core function in the source frame
             if cls in CORE and X in "BH":
                 fname, fld, build = CORE[cls]
